@@ -300,3 +300,680 @@ Proof.
   rewrite ns_dd_paren. rewrite !(ns_node (K KTpl lo hi)) by reflexivity.
   cbn [ns_count_list fold_right]. rewrite !(ns_node Lst) by reflexivity. lia.
 Qed.
+
+(** ** Calls *)
+Lemma replace_callee_and_args_ns c lo hi cx callee args targs ident_callee coa a p call' a' p' :
+  replace_callee_and_args c (Node (K KCall lo hi) [cx; callee; Node Lst args; targs]) ident_callee coa a p = (call', a', p') ->
+  ns_count call' + ns_acc a' =
+    ns_count cx + ns_count targs + ns_count_list args + ns_acc a +
+    match ident_callee with Some id => ns_count id | None => ns_count callee end.
+Proof.
+  unfold replace_callee_and_args.
+  destruct (replace_args c args (lo, hi) _ a p) as [[args1 a1] p1] eqn:E.
+  intros H; inversion H; subst. apply replace_args_ns in E.
+  rewrite (ns_node (K KCall lo hi)) by reflexivity. cbn [ns_count_list fold_right].
+  rewrite (ns_node Lst) by reflexivity.
+  destruct ident_callee as [id|]; [rewrite ns_mk_member, ns_mk_ident_name|]; lia.
+Qed.
+
+Lemma ns_insert_this lo hi cx callee args targs this :
+  ns_count (insert_this (Node (K KCall lo hi) [cx; callee; Node Lst args; targs]) this) =
+  ns_count (Node (K KCall lo hi) [cx; callee; Node Lst args; targs]) + ns_count this.
+Proof.
+  unfold insert_this. rewrite !(ns_node (K KCall lo hi)) by reflexivity. cbn [ns_count_list fold_right].
+  rewrite !(ns_node Lst) by reflexivity. rewrite ns_list_cons, ns_mk_arg. lia.
+Qed.
+
+Lemma replace_callee_shape c lo hi cx callee args targs ident_callee coa a p call' a' p' :
+  replace_callee_and_args c (Node (K KCall lo hi) [cx; callee; Node Lst args; targs]) ident_callee coa a p = (call', a', p') ->
+  exists callee' args', call' = Node (K KCall lo hi) [cx; callee'; Node Lst args'; targs].
+Proof.
+  unfold replace_callee_and_args.
+  destruct (replace_args c args (lo, hi) _ a p) as [[args1 a1] p1].
+  intros H; inversion H; subst. eauto.
+Qed.
+
+(** [replace_with_member] on a call of the usual shape: one reference more than the receiver, the
+    member expression handed over (if any), the arguments and the call's scalar fields. *)
+Lemma replace_with_member_ns c recv method mspan lo hi cx callee args targs member_opt coa p out tag p' :
+  (forall m, member_opt = Some m -> is_lit m = false) ->
+  replace_with_member c recv method mspan (Node (K KCall lo hi) [cx; callee; Node Lst args; targs]) member_opt coa p
+    = (Some (out, tag), p') ->
+  ns_count out = 1 + ns_count cx + ns_count targs + ns_count_list args + ns_count recv +
+                 match member_opt with Some m => ns_count m | None => 0 end.
+Proof.
+  intros Hm. unfold replace_with_member. destruct (csi_get c method) as [csi|]; [|discriminate].
+  cbn [span_of].
+  destruct (get_temporal c recv (lo, hi) IKExpr acc0 p) as [[id_opt a1] p1] eqn:E1.
+  set (r0 := match id_opt with Some i => i | None => recv end) in *.
+  set (member := match member_opt with Some m => m | None => mk_member (lo, hi) r0 (mk_ident_name mspan method) end) in *.
+  destruct (get_ident c member (lo, hi) IKExpr a1 p1) as [[callee_opt a2] p2] eqn:E2.
+  destruct (replace_callee_and_args c _ (Some (match callee_opt with Some i => i | None => recv end)) coa
+              (push_arg (mk_arg r0) a2) p2) as [[call' a4] p4] eqn:E3.
+  intros H; inversion H; subst.
+  (* the receiver *)
+  assert (R0 : ns_count r0 = 0 /\ ns_acc a1 = ns_count recv).
+  { pose proof E1 as E1'. apply get_temporal_ns in E1'. destruct E1' as [X Y]. rewrite ns_acc0 in X.
+    unfold r0. destruct id_opt as [i|].
+    - rewrite (Y ltac:(discriminate)) in *. lia.
+    - unfold get_temporal in E1. destruct (is_lit recv) eqn:L.
+      + rewrite (ns_lit _ L) in *. lia.
+      + unfold next_ident in E1. cbn [fst snd] in E1. inversion E1. }
+  destruct R0 as [R0 R1].
+  (* the member expression *)
+  assert (ML : is_lit member = false).
+  { unfold member. destruct member_opt as [m|]; [apply Hm; reflexivity | reflexivity]. }
+  pose proof E2 as E2'. apply get_ident_ns in E2'. cbn zeta in E2'. destruct E2' as [M1 M2].
+  assert (CE : ns_count (match callee_opt with Some i => i | None => recv end) = 0).
+  { destruct callee_opt as [i|]; [exact M2|].
+    unfold get_ident in E2. destruct (get_temporal c member (lo, hi) IKExpr a1 p1) as [[i2 a3] p3] eqn:T.
+    inversion E2; subst. unfold get_temporal in T. rewrite ML in T. unfold next_ident in T. cbn [fst snd] in T. inversion T. }
+  pose proof (replace_callee_shape _ _ _ _ _ _ _ _ _ _ _ _ _ _ E3) as (callee' & args' & ->).
+  apply replace_callee_and_args_ns in E3. rewrite ns_push_arg, ns_mk_arg, R0, CE in E3.
+  rewrite ns_dd_paren, ns_insert_this, R0.
+  assert (MM : ns_count member = match member_opt with Some m => ns_count m | None => 0 end).
+  { unfold member. destruct member_opt as [m|]; [reflexivity|]. rewrite ns_mk_member, ns_mk_ident_name, R0. reflexivity. }
+  lia.
+Qed.
+
+Lemma replace_spread_ns c method lo hi cx callee args targs member coa p out tag p' :
+  replace_spread_with_member c method (Node (K KCall lo hi) [cx; callee; Node Lst args; targs]) member coa p
+    = (Some (out, tag), p') ->
+  ns_count out = 1 + ns_count cx + ns_count targs + ns_count_list args + ns_count member.
+Proof.
+  unfold replace_spread_with_member. destruct (csi_get c method) as [csi|]; [|discriminate]. cbn [span_of].
+  destruct (get_ident c member (lo, hi) IKExpr acc0 p) as [[callee_opt a1] p1] eqn:E1.
+  destruct callee_opt as [cal|]; [|discriminate].
+  destruct (replace_callee_and_args c _ (Some cal) (Some coa) a1 p1) as [[call' a2] p2] eqn:E2.
+  intros H; inversion H; subst.
+  apply get_ident_ns in E1. cbn zeta in E1. destruct E1 as [X Y]. rewrite ns_acc0 in X.
+  apply replace_callee_and_args_ns in E2. rewrite ns_dd_paren. lia.
+Qed.
+
+Lemma replace_without_callee_ns c callee_ident lo hi cx callee args targs p out tag p' :
+  ns_count callee_ident = 0 -> callee = callee_ident ->
+  replace_without_callee c callee_ident (Node (K KCall lo hi) [cx; callee; Node Lst args; targs]) p = (Some (out, tag), p') ->
+  ns_count out = 1 + ns_count cx + ns_count targs + ns_count_list args + ns_count callee.
+Proof.
+  intros Hc ->. unfold replace_without_callee. destruct (ident_sym callee_ident) as [name|]; [|discriminate].
+  destruct (csi_get c name) as [csi|]; [|discriminate]. destruct (m_awc csi); [|discriminate]. cbn [span_of].
+  destruct (replace_callee_and_args c _ None None _ p) as [[call' a1] p1] eqn:E.
+  intros H; inversion H; subst. apply replace_callee_and_args_ns in E.
+  rewrite !ns_push_arg, !ns_mk_arg, ns_acc0, Hc in E.
+  rewrite ns_mk_ident in E by reflexivity. rewrite ns_dd_paren. lia.
+Qed.
+
+(** Scalar fields of a call (syntax context, type arguments) carry no reference. *)
+Definition call_fields_ok (cx targs : node) : Prop := ns_count cx = 0 /\ ns_count targs = 0.
+
+Lemma arg_plain_ns spr e : ns_count (Node Obj [spr; e]) = ns_count spr + ns_count e.
+Proof. rewrite ns_node by reflexivity. simpl. lia. Qed.
+
+Theorem call_transform_ns c lo hi cx callee args targs p out tag p' :
+  call_fields_ok cx targs ->
+  (is_ident callee = true -> ns_count callee = 0) ->
+  call_transform c (Node (K KCall lo hi) [cx; callee; Node Lst args; targs]) p = (Some (out, tag), p') ->
+  ns_count out = 1 + ns_count (Node (K KCall lo hi) [cx; callee; Node Lst args; targs]).
+Proof.
+  intros [Hcx Htg] Hid. unfold call_transform. cbn [call_parts].
+  rewrite (ns_node (K KCall lo hi)) by reflexivity. cbn [ns_count_list fold_right].
+  rewrite (ns_node Lst) by reflexivity.
+  destruct (member_parts callee) as [[obj prop]|] eqn:Em.
+  - assert (Cm : ns_count callee = ns_count obj + ns_count prop).
+    { unfold member_parts in Em. destruct callee as [[k l h| | | | | |] ccs]; try discriminate.
+      destruct k; try discriminate. destruct ccs as [|o [|pr [|? ?]]]; try discriminate.
+      inversion Em; subst. rewrite ns_node by reflexivity. simpl. lia. }
+    destruct (ident_name_sym prop) as [name|] eqn:Ep; [|discriminate].
+    assert (Pp : ns_count prop = 0).
+    { apply ns_leaf. unfold ident_name_sym in Ep. destruct prop as [[k l h| | | | | |] pcs]; try discriminate.
+      destruct k; try discriminate. reflexivity. }
+    assert (W : forall member_opt coa out0 tag0 p0,
+               member_opt = None ->
+               replace_with_member c obj name (span_of prop) (Node (K KCall lo hi) [cx; callee; Node Lst args; targs]) member_opt coa p
+                 = (Some (out0, tag0), p0) ->
+               ns_count out0 = 1 + (ns_count cx + (ns_count callee + (ns_count_list args + (ns_count targs + 0))))).
+    { intros mo coa out0 tag0 p0 -> H0. apply replace_with_member_ns in H0; [|intros m X; discriminate X]. lia. }
+    destruct (is_lit obj).
+    + destruct (allows_literal_callers c name); [|discriminate]. intros H. eapply W; [reflexivity | exact H].
+    + destruct (receiver_kind_ok obj); [intros H; eapply W; [reflexivity | exact H]|].
+      destruct (is_kind KMember obj) eqn:Ek; [|discriminate].
+      destruct (is_call_or_apply name).
+      * (* X.m.call / X.m.apply *)
+        unfold replace_prototype, prototype_parts.
+        destruct (negb (is_call_or_apply name)); [discriminate|].
+        destruct (prototype_method obj) as [[method mspan]|]; [|discriminate]. cbn [call_parts].
+        destruct args as [|this rest]; [discriminate|].
+        destruct (arg_is_spread this) eqn:Es.
+        -- intros H. apply replace_spread_ns in H. rewrite H. lia.
+        -- destruct (invalid_args name (this :: rest)); [discriminate|].
+           destruct (arg_expr this) as [this_expr|] eqn:Et; [|discriminate].
+           destruct (is_lit this_expr && _); [discriminate|].
+           unfold mk_call, mk. cbn [fst snd]. intros H.
+           apply replace_with_member_ns in H.
+           ++ rewrite H. unfold nL.
+              assert (Tn : ns_count this = ns_count this_expr).
+              { unfold arg_expr in Et. destruct this as [[| | | | | |] tcs]; try discriminate.
+                destruct tcs as [|spr [|e [|? ?]]]; try discriminate. inversion Et; subst.
+                rewrite arg_plain_ns. unfold arg_is_spread in Es.
+                destruct spr as [[| | | | | |] scs]; try discriminate Es. reflexivity. }
+              rewrite ns_list_cons, Tn. change (ns_count ctxt0) with 0. change (ns_count nNul) with 0. lia.
+           ++ intros m X. inversion X; subst. unfold is_kind in Ek. unfold is_lit.
+              destruct (kind_of m) as [k|]; [|reflexivity]. unfold kind_eqb in Ek.
+              destruct (kind_eq_dec KMember k); [subst; reflexivity | discriminate].
+      * destruct (negb (member_prop_is_prototype obj)); [|discriminate].
+        intros H; eapply W; [reflexivity | exact H].
+  - destruct (is_ident callee) eqn:Ei; [|discriminate].
+    intros H. apply replace_without_callee_ns in H; [|apply Hid; reflexivity|reflexivity]. lia.
+Qed.
+
+(** ** Compound assignment *)
+Lemma ns_simple_target t : ns_count (simple_target_to_expr t) = ns_count t.
+Proof.
+  unfold simple_target_to_expr. destruct t as [[k lo hi| | | | | |] cs]; try reflexivity.
+  destruct k; try reflexivity. destruct cs as [|cx [|sym [|opt [|ta [|? ?]]]]]; reflexivity.
+Qed.
+
+Lemma get_temporal_args c operand span ik a p id a' p' :
+  get_temporal c operand span ik a p = (id, a', p') -> a_args a' = a_args a.
+Proof.
+  unfold get_temporal. destruct (is_lit operand); intros H; inversion H; subst; reflexivity.
+Qed.
+
+(** Hoisting moves references out of the target, it neither loses nor duplicates any. *)
+Lemma hoist_key_ns c prop span a p prop' a' p' :
+  hoist_key c prop span a p = (prop', a', p') ->
+  ns_count prop' + ns_acc a' = ns_count prop + ns_acc a /\ a_args a' = a_args a.
+Proof.
+  unfold hoist_key. destruct prop as [[k lo hi| | | | | |] cs]; try solve [intros H; inversion H; subst; split; reflexivity].
+  destruct k; try solve [intros H; inversion H; subst; split; reflexivity].
+  destruct cs as [|e [|? ?]]; try solve [intros H; inversion H; subst; split; reflexivity].
+  destruct (is_ident e || is_lit e); [intros H; inversion H; subst; split; reflexivity|].
+  destruct (get_temporal c e span IKExpr a p) as [[id a2] p2] eqn:E.
+  intros H; inversion H; subst. pose proof (get_temporal_args _ _ _ _ _ _ _ _ _ E) as A.
+  apply get_temporal_ns in E. destruct E as [X _].
+  rewrite !(ns_node (K KComputed lo hi)) by reflexivity. cbn [ns_count_list fold_right]. split; [lia | exact A].
+Qed.
+
+Lemma hoist_member_ns c t span a p t' a' p' :
+  hoist_member c t span a p = Some (t', a', p') ->
+  ns_count t' + ns_acc a' = ns_count t + ns_acc a /\ a_args a' = a_args a.
+Proof.
+  unfold hoist_member. destruct t as [[k lo hi| | | | | |] cs]; try discriminate.
+  destruct k; try discriminate.
+  - destruct cs as [|obj [|prop [|? ?]]]; try discriminate.
+    destruct (if is_ident obj || is_kind KThis obj then (obj, a, p)
+              else let '(id, a1, p1) := get_temporal c obj span IKExpr a p in
+                   (match id with Some i => i | None => obj end, a1, p1)) as [[obj1 a1] p1] eqn:E1.
+    destruct (hoist_key c prop span a1 p1) as [[prop1 a2] p2] eqn:E2.
+    intros H; inversion H; subst. apply hoist_key_ns in E2. destruct E2 as [X A].
+    assert (O : ns_count obj1 + ns_acc a1 = ns_count obj + ns_acc a /\ a_args a1 = a_args a).
+    { destruct (is_ident obj || is_kind KThis obj); [inversion E1; subst; auto|].
+      destruct (get_temporal c obj span IKExpr a p) as [[id a3] p3] eqn:T. inversion E1; subst.
+      pose proof (get_temporal_args _ _ _ _ _ _ _ _ _ T) as B. apply get_temporal_ns in T. destruct T as [Y _]. auto. }
+    destruct O as [O B].
+    rewrite !(ns_node (K KMember lo hi)) by reflexivity. cbn [ns_count_list fold_right]. split; [lia | congruence].
+  - destruct cs as [|obj [|prop [|? ?]]]; try discriminate.
+    destruct (hoist_key c prop span a p) as [[prop1 a2] p2] eqn:E.
+    intros H; inversion H; subst. apply hoist_key_ns in E. destruct E as [X A].
+    rewrite !(ns_node (K KSuperProp lo hi)) by reflexivity. cbn [ns_count_list fold_right]. split; [lia | exact A].
+Qed.
+
+Lemma ns_peel_parens : forall n, ns_count (peel_parens n) = ns_count n.
+Proof.
+  apply (node_ind' (fun n => ns_count (peel_parens n) = ns_count n)). intros t cs IH.
+  destruct t as [k lo hi| | | | | |]; try reflexivity. destruct k; try reflexivity.
+  destruct cs as [|e [|? ?]]; try reflexivity.
+  cbn [peel_parens]. inversion IH; subst. rewrite (ns_node (K KParen lo hi)) by reflexivity.
+  cbn [ns_count_list fold_right]. lia.
+Qed.
+
+Lemma hoist_target_ns c lhs span p lhs' hoisted p' :
+  hoist_target c lhs span acc0 p = (lhs', hoisted, p') ->
+  ns_count lhs' + ns_count_list (a_assigns hoisted) = ns_count lhs /\ a_args hoisted = [].
+Proof.
+  unfold hoist_target.
+  set (inner := if is_kind KParen lhs then peel_parens lhs else lhs).
+  assert (I : ns_count inner = ns_count lhs).
+  { unfold inner. destruct (is_kind KParen lhs); [apply ns_peel_parens | reflexivity]. }
+  destruct (hoist_member c inner span acc0 p) as [[[t a] q]|] eqn:E.
+  - intros H; inversion H; subst. apply hoist_member_ns in E. destruct E as [X A].
+    unfold ns_acc in X. rewrite A in X. cbn [acc0 a_args a_assigns ns_count_list fold_right] in X.
+    split; [lia | exact A].
+  - intros H; inversion H; subst. split; [simpl; lia | reflexivity].
+Qed.
+
+(** The compound assignment: one reference more, provided what remains of the target after
+    hoisting (it is written twice) carries none. *)
+Theorem assign_transform_ns c lo hi opn lhs rhs p out p' :
+  ns_count opn = 0 -> ident_clean rhs ->
+  (forall lhs' hoisted p0, hoist_target c lhs (lo, hi) acc0 p = (lhs', hoisted, p0) -> ns_count lhs' = 0) ->
+  assign_transform c (Node (K KAssign lo hi) [opn; lhs; rhs]) p = (Some out, p') ->
+  ns_count out = 1 + ns_count (Node (K KAssign lo hi) [opn; lhs; rhs]).
+Proof.
+  intros Hop Hr Hl. unfold assign_transform. destruct (is_pat_target lhs); [discriminate|].
+  destruct (hoist_target c lhs (lo, hi) acc0 p) as [[lhs' hoisted] p0] eqn:E.
+  pose proof (Hl _ _ _ eq_refl) as L0. apply hoist_target_ns in E. destruct E as [E A].
+  set (right := if is_op bin_op "+" rhs then mk_paren (span_of rhs) rhs else rhs).
+  assert (Rn : ns_count right = ns_count rhs).
+  { unfold right. destruct (is_op bin_op "+" rhs); [apply ns_mk_paren | reflexivity]. }
+  assert (Rc : ident_clean right).
+  { unfold right, ident_clean. destruct (is_op bin_op "+" rhs); [discriminate | exact Hr]. }
+  unfold mk_bin, mk. cbn [fst snd].
+  destruct (binary_transform c _ p0) as [[e'|] p1] eqn:B; [|discriminate].
+  apply binary_transform_ns in B; [| |exact Rc].
+  2:{ unfold ident_clean. rewrite ns_simple_target. intros _. exact L0. }
+  intros H; inversion H; subst.
+  rewrite (ns_node (K KBin lo hi)) in B by reflexivity. cbn [ns_count_list fold_right nS] in B.
+  rewrite ns_simple_target, L0, Rn in B.
+  rewrite (ns_node (K KAssign lo hi)) by reflexivity. cbn [ns_count_list fold_right]. rewrite Hop.
+  destruct (a_assigns hoisted) as [|h hs] eqn:Eh.
+  - rewrite ns_mk_assign, L0, B. cbn [ns_count_list fold_right] in E. change (ns_count (nS "+")) with 0. lia.
+  - rewrite ns_mk_paren, ns_mk_seq.
+    match goal with |- context [ns_count_list ?l] =>
+      replace (ns_count_list l) with (ns_count_list (h :: hs) + ns_count_list [mk_assign (lo, hi) "=" lhs' e'])
+        by (rewrite <- ns_list_app; reflexivity) end.
+    cbn [ns_count_list fold_right]. cbn [ns_count_list fold_right] in E.
+    rewrite ns_mk_assign, L0, B. change (ns_count (nS "+")) with 0. lia.
+Qed.
+
+(** ** Arrow normalisation adds no reference *)
+Lemma arrow_transform_ns n : ns_count (arrow_transform n) = ns_count n.
+Proof.
+  unfold arrow_transform. destruct n as [[k lo hi| | | | | |] cs]; try reflexivity.
+  destruct k; try reflexivity.
+  destruct cs as [|cx [|params [|body [|asy [|gen [|tp [|rt [|? ?]]]]]]]]; try reflexivity.
+  destruct (is_kind KBlock body); [reflexivity|].
+  rewrite !(ns_node (K KArrow lo hi)) by reflexivity. cbn [ns_count_list fold_right].
+  unfold mk_block, mk_return, mk, nL. cbn [fst snd].
+  rewrite (ns_node (K KBlock 0 0)) by reflexivity. cbn [ns_count_list fold_right].
+  rewrite (ns_node Lst) by reflexivity. cbn [ns_count_list fold_right].
+  rewrite (ns_node (K KReturn 0 0)) by reflexivity. cbn [ns_count_list fold_right].
+  change (ns_count ctxt0) with 0. lia.
+Qed.
+
+(** ** The names registered for declaration are temporaries, never the hook namespace *)
+Definition all_temp (p : pstate) : Prop :=
+  Forall (fun x => String.eqb x gen_DD_GLOBAL_NAMESPACE = false) (p_idents p).
+
+Lemma all_temp_init : all_temp p_init.
+Proof. constructor. Qed.
+
+Lemma all_temp_reset p : all_temp p -> all_temp (reset_counter p).
+Proof. exact (fun H => H). Qed.
+
+Lemma register_ident_temp c n p : all_temp p -> all_temp (register_ident (temp_name c n) p).
+Proof.
+  unfold all_temp, register_ident. intros H. destruct (existsb _ (p_idents p)); [exact H|].
+  cbn [p_idents]. apply Forall_app. split; [exact H|]. constructor; [apply temp_name_not_ns | constructor].
+Qed.
+
+Lemma register_variable_temp c id p : all_temp p -> all_temp (register_variable c id p).
+Proof.
+  unfold register_variable. intros H. destruct (ident_sym id); [|exact H].
+  destruct (negb (is_dummy (span_of id)) && String.prefix (var_prefix c) s); exact H.
+Qed.
+
+Lemma get_temporal_temp c operand span ik a p id a' p' :
+  get_temporal c operand span ik a p = (id, a', p') -> all_temp p -> all_temp p'.
+Proof.
+  unfold get_temporal. destruct (is_lit operand); [intros H; inversion H; subst; auto|].
+  unfold next_ident. cbn [fst snd]. intros H; inversion H; subst. intros T.
+  apply register_ident_temp. exact T.
+Qed.
+
+Lemma get_ident_temp c operand span ik a p id a' p' :
+  get_ident c operand span ik a p = (id, a', p') -> all_temp p -> all_temp p'.
+Proof.
+  unfold get_ident. destruct (get_temporal c operand span ik a p) as [[i a1] p1] eqn:E.
+  intros H; inversion H; subst. eapply get_temporal_temp; exact E.
+Qed.
+
+Lemma replace_default_temp c e span ik a p e' a' p' :
+  replace_default c e span ik a p = (e', a', p') -> all_temp p -> all_temp p'.
+Proof.
+  unfold replace_default. destruct (get_ident c e span ik a p) as [[id a1] p1] eqn:E.
+  intros H; inversion H; subst. eapply get_ident_temp; exact E.
+Qed.
+
+Lemma replace_expr_noexpand_temp c e im span ik a p e' a' p' :
+  replace_expr_noexpand c e im span ik a p = (e', a', p') -> all_temp p -> all_temp p'.
+Proof.
+  unfold replace_expr_noexpand. destruct (is_lit e); [intros H; inversion H; subst; auto|].
+  destruct (is_ident e).
+  - destruct im; [apply replace_default_temp | intros H; inversion H; subst; auto].
+  - destruct (bin_op e) as [op|]; [|apply replace_default_temp].
+    destruct (String.eqb op "+"); [intros H; inversion H; subst; auto | apply replace_default_temp].
+Qed.
+
+Lemma replace_arg_noexpand_temp c arg im span a p arg' a' p' :
+  replace_arg_noexpand c arg im span a p = (arg', a', p') -> all_temp p -> all_temp p'.
+Proof.
+  unfold replace_arg_noexpand. destruct arg as [[| | | | | |] cs]; try solve [intros H; inversion H; subst; auto].
+  destruct cs as [|spr [|e [|? ?]]]; try solve [intros H; inversion H; subst; auto].
+  destruct (replace_expr_noexpand c e im span _ a p) as [[e1 a1] p1] eqn:E.
+  intros H; inversion H; subst. eapply replace_expr_noexpand_temp; exact E.
+Qed.
+
+Lemma replace_elems_temp c im span : forall elems a p elems' a' p',
+  replace_elems c elems im span a p = (elems', a', p') -> all_temp p -> all_temp p'.
+Proof.
+  induction elems as [|el rest IH]; intros a p elems' a' p' H T; simpl in H.
+  - inversion H; subst. exact T.
+  - destruct (match el with Node Nul _ => (el, a, p) | _ => replace_arg_noexpand c el im span a p end)
+      as [[el1 a1] p1] eqn:E1.
+    destruct (replace_elems c rest im span a1 p1) as [[rest1 a2] p2] eqn:E2.
+    inversion H; subst. eapply IH; [exact E2|].
+    destruct el as [[| | | | | |] ecs]; try (eapply replace_arg_noexpand_temp; [exact E1 | exact T]).
+    inversion E1; subst. exact T.
+Qed.
+
+Lemma replace_expr_temp c e im span ik expand a p e' a' p' :
+  replace_expr c e im span ik expand a p = (e', a', p') -> all_temp p -> all_temp p'.
+Proof.
+  unfold replace_expr.
+  destruct (is_lit e || is_ident e); [apply replace_expr_noexpand_temp|].
+  destruct (bin_op e); [apply replace_expr_noexpand_temp|].
+  destruct e as [[k lo hi| | | | | |] cs]; try apply replace_default_temp.
+  destruct k; try apply replace_default_temp.
+  destruct cs as [|[[| | | | | |] elems] [|? ?]]; try apply replace_default_temp.
+  destruct expand; [|apply replace_default_temp].
+  destruct (replace_elems c elems im span a p) as [[elems1 a1] p1] eqn:E.
+  intros H; inversion H; subst. eapply replace_elems_temp; exact E.
+Qed.
+
+Lemma replace_args_temp c span expand : forall args a p args' a' p',
+  replace_args c args span expand a p = (args', a', p') -> all_temp p -> all_temp p'.
+Proof.
+  induction args as [|x rest IH]; intros a p args' a' p' H T; simpl in H.
+  - inversion H; subst. exact T.
+  - destruct (replace_arg c x Replace span expand a p) as [[x1 a1] p1] eqn:E1.
+    destruct (replace_args c rest span expand a1 p1) as [[rest1 a2] p2] eqn:E2.
+    inversion H; subst. eapply IH; [exact E2|].
+    unfold replace_arg in E1. destruct x as [[| | | | | |] cs]; try (inversion E1; subst; exact T).
+    destruct cs as [|spr [|e [|? ?]]]; try (inversion E1; subst; exact T).
+    destruct (replace_expr c e Replace span _ expand a p) as [[e1 a3] p3] eqn:E3.
+    inversion E1; subst. eapply replace_expr_temp; [exact E3 | exact T].
+Qed.
+
+Lemma tpl_replace_temp c : forall es a p es' a' p',
+  tpl_replace c es a p = (es', a', p') -> all_temp p -> all_temp p'.
+Proof.
+  induction es as [|x rest IH]; intros a p es' a' p' H T; simpl in H.
+  - inversion H; subst. exact T.
+  - destruct (replace_expr c x Replace (span_of x) IKExpr false a p) as [[x1 a1] p1] eqn:E1.
+    destruct (tpl_replace c rest a1 p1) as [[rest1 a2] p2] eqn:E2.
+    inversion H; subst. eapply IH; [exact E2|]. eapply replace_expr_temp; [exact E1 | exact T].
+Qed.
+
+Lemma binary_transform_temp c e p r p' : binary_transform c e p = (r, p') -> all_temp p -> all_temp p'.
+Proof.
+  unfold binary_transform. destruct e as [[k lo hi| | | | | |] cs]; try solve [intros H; inversion H; subst; auto].
+  destruct k; try solve [intros H; inversion H; subst; auto].
+  destruct cs as [|opn [|l [|r0 [|? ?]]]]; try solve [intros H; inversion H; subst; auto].
+  destruct (replace_expr c l (get_ident_mode r0) (lo, hi) IKExpr false acc0 p) as [[l' a1] p1] eqn:E1.
+  destruct (replace_expr c r0 (get_ident_mode l') (lo, hi) IKExpr false a1 p1) as [[r' a2] p2] eqn:E2.
+  intros H T. assert (all_temp p2) by (eapply replace_expr_temp; [exact E2 | eapply replace_expr_temp; [exact E1 | exact T]]).
+  destruct (existsb arg_is_nonlit (a_args a2)); inversion H; subst; assumption.
+Qed.
+
+Lemma template_transform_temp c e p r p' : template_transform c e p = (r, p') -> all_temp p -> all_temp p'.
+Proof.
+  unfold template_transform. destruct e as [[k lo hi| | | | | |] cs]; try solve [intros H; inversion H; subst; auto].
+  destruct k; try solve [intros H; inversion H; subst; auto].
+  destruct cs as [|[[| | | | | |] es] [|quasis [|? ?]]]; try solve [intros H; inversion H; subst; auto].
+  destruct (tpl_replace c es acc0 p) as [[es' a] p1] eqn:E.
+  intros H; inversion H; subst. eapply tpl_replace_temp; exact E.
+Qed.
+
+Lemma hoist_key_temp c prop span a p prop' a' p' :
+  hoist_key c prop span a p = (prop', a', p') -> all_temp p -> all_temp p'.
+Proof.
+  unfold hoist_key. destruct prop as [[k lo hi| | | | | |] cs]; try solve [intros H; inversion H; subst; auto].
+  destruct k; try solve [intros H; inversion H; subst; auto].
+  destruct cs as [|e [|? ?]]; try solve [intros H; inversion H; subst; auto].
+  destruct (is_ident e || is_lit e); [intros H; inversion H; subst; auto|].
+  destruct (get_temporal c e span IKExpr a p) as [[id a2] p2] eqn:E.
+  intros H; inversion H; subst. eapply get_temporal_temp; exact E.
+Qed.
+
+Lemma hoist_target_temp c lhs span a p lhs' a' p' :
+  hoist_target c lhs span a p = (lhs', a', p') -> all_temp p -> all_temp p'.
+Proof.
+  unfold hoist_target. set (inner := if is_kind KParen lhs then peel_parens lhs else lhs).
+  destruct (hoist_member c inner span a p) as [[[t a0] q]|] eqn:E; [|intros H; inversion H; subst; auto].
+  intros H; inversion H; subst. intros T. unfold hoist_member in E.
+  destruct inner as [[k lo hi| | | | | |] cs]; try discriminate. destruct k; try discriminate.
+  - destruct cs as [|obj [|prop [|? ?]]]; try discriminate.
+    destruct (if is_ident obj || is_kind KThis obj then (obj, a, p)
+              else let '(id, a1, p1) := get_temporal c obj span IKExpr a p in
+                   (match id with Some i => i | None => obj end, a1, p1)) as [[obj1 a1] p1] eqn:E1.
+    destruct (hoist_key c prop span a1 p1) as [[prop1 a2] p2] eqn:E2. inversion E; subst.
+    eapply hoist_key_temp; [exact E2|].
+    destruct (is_ident obj || is_kind KThis obj); [inversion E1; subst; exact T|].
+    destruct (get_temporal c obj span IKExpr a p) as [[id a3] p3] eqn:G. inversion E1; subst.
+    eapply get_temporal_temp; [exact G | exact T].
+  - destruct cs as [|obj [|prop [|? ?]]]; try discriminate.
+    destruct (hoist_key c prop span a p) as [[prop1 a2] p2] eqn:E2. inversion E; subst.
+    eapply hoist_key_temp; [exact E2 | exact T].
+Qed.
+
+Lemma assign_transform_temp c e p r p' : assign_transform c e p = (r, p') -> all_temp p -> all_temp p'.
+Proof.
+  unfold assign_transform. destruct e as [[k lo hi| | | | | |] cs]; try solve [intros H; inversion H; subst; auto].
+  destruct k; try solve [intros H; inversion H; subst; auto].
+  destruct cs as [|opn [|lhs [|rhs [|? ?]]]]; try solve [intros H; inversion H; subst; auto].
+  destruct (is_pat_target lhs); [intros H; inversion H; subst; auto|].
+  destruct (hoist_target c lhs (lo, hi) acc0 p) as [[lhs' hoisted] p0] eqn:E.
+  destruct (binary_transform c _ p0) as [[e'|] p1] eqn:B; intros H; inversion H; subst; intros T;
+    (eapply binary_transform_temp; [exact B | eapply hoist_target_temp; [exact E | exact T]]).
+Qed.
+
+Lemma replace_callee_and_args_temp c call ic coa a p call' a' p' :
+  replace_callee_and_args c call ic coa a p = (call', a', p') -> all_temp p -> all_temp p'.
+Proof.
+  unfold replace_callee_and_args. destruct call as [[k lo hi| | | | | |] cs]; try solve [intros H; inversion H; subst; auto].
+  destruct k; try solve [intros H; inversion H; subst; auto].
+  destruct cs as [|cx [|callee [|[[| | | | | |] args] [|targs [|? ?]]]]]; try solve [intros H; inversion H; subst; auto].
+  destruct (replace_args c args (lo, hi) _ a p) as [[args1 a1] p1] eqn:E.
+  intros H; inversion H; subst. eapply replace_args_temp; exact E.
+Qed.
+
+Lemma replace_with_member_temp c recv method mspan call mo coa p r p' :
+  replace_with_member c recv method mspan call mo coa p = (r, p') -> all_temp p -> all_temp p'.
+Proof.
+  unfold replace_with_member. destruct (csi_get c method); [|intros H; inversion H; subst; auto].
+  destruct (get_temporal c recv (span_of call) IKExpr acc0 p) as [[id_opt a1] p1] eqn:E1.
+  destruct (get_ident c _ (span_of call) IKExpr a1 p1) as [[callee_opt a2] p2] eqn:E2.
+  destruct (replace_callee_and_args c call _ coa _ p2) as [[call' a4] p4] eqn:E3.
+  intros H; inversion H; subst. intros T.
+  eapply replace_callee_and_args_temp; [exact E3|]. eapply get_ident_temp; [exact E2|].
+  eapply get_temporal_temp; [exact E1 | exact T].
+Qed.
+
+Lemma replace_spread_temp c method call member coa p r p' :
+  replace_spread_with_member c method call member coa p = (r, p') -> all_temp p -> all_temp p'.
+Proof.
+  unfold replace_spread_with_member. destruct (csi_get c method); [|intros H; inversion H; subst; auto].
+  destruct (get_ident c member (span_of call) IKExpr acc0 p) as [[callee_opt a1] p1] eqn:E1.
+  destruct callee_opt as [cal|].
+  - destruct (replace_callee_and_args c call (Some cal) (Some coa) a1 p1) as [[call' a2] p2] eqn:E2.
+    intros H; inversion H; subst. intros T. eapply replace_callee_and_args_temp; [exact E2|].
+    eapply get_ident_temp; [exact E1 | exact T].
+  - intros H; inversion H; subst. intros T. eapply get_ident_temp; [exact E1 | exact T].
+Qed.
+
+Lemma replace_without_callee_temp c callee call p r p' :
+  replace_without_callee c callee call p = (r, p') -> all_temp p -> all_temp p'.
+Proof.
+  unfold replace_without_callee. destruct (ident_sym callee); [|intros H; inversion H; subst; auto].
+  destruct (csi_get c s) as [csi|]; [|intros H; inversion H; subst; auto].
+  destruct (m_awc csi); [|intros H; inversion H; subst; auto].
+  destruct (replace_callee_and_args c call None None _ p) as [[call' a1] p1] eqn:E.
+  intros H; inversion H; subst. eapply replace_callee_and_args_temp; exact E.
+Qed.
+
+Lemma call_transform_temp c call p r p' : call_transform c call p = (r, p') -> all_temp p -> all_temp p'.
+Proof.
+  unfold call_transform. destruct (call_parts call) as [[[[cx callee] args] targs]|]; [|intros H; inversion H; subst; auto].
+  destruct (member_parts callee) as [[obj prop]|].
+  - destruct (ident_name_sym prop) as [name|]; [|intros H; inversion H; subst; auto].
+    destruct (is_lit obj).
+    + destruct (allows_literal_callers c name); [apply replace_with_member_temp | intros H; inversion H; subst; auto].
+    + destruct (receiver_kind_ok obj); [apply replace_with_member_temp|].
+      destruct (is_kind KMember obj); [|intros H; inversion H; subst; auto].
+      destruct (is_call_or_apply name).
+      * unfold replace_prototype. destruct (prototype_parts c call obj name);
+          [intros H; inversion H; subst; auto | apply replace_spread_temp | apply replace_with_member_temp].
+      * destruct (negb (member_prop_is_prototype obj)); [apply replace_with_member_temp | intros H; inversion H; subst; auto].
+  - destruct (is_ident callee); [apply replace_without_callee_temp | intros H; inversion H; subst; auto].
+Qed.
+
+Lemma oc_get_ident_temp c operand s id s' :
+  oc_get_ident c operand s = (id, s') -> all_temp (oc_p s) -> all_temp (oc_p s').
+Proof.
+  unfold oc_get_ident. destruct (get_ident c operand DUMMY IKExpr _ (oc_p s)) as [[i a] p] eqn:E.
+  intros H; inversion H; subst. cbn [oc_p]. eapply get_ident_temp; exact E.
+Qed.
+
+Lemma oc_call_from_base_temp c base optional s r s' :
+  oc_call_from_base c base optional s = (r, s') -> all_temp (oc_p s) -> all_temp (oc_p s').
+Proof.
+  unfold oc_call_from_base. destruct base as [[k lo hi| | | | | |] cs]; try solve [intros H; inversion H; subst; auto].
+  destruct k; try solve [intros H; inversion H; subst; auto].
+  destruct cs as [|cx [|callee [|[[| | | | | |] args] [|targs [|? ?]]]]]; try solve [intros H; inversion H; subst; auto].
+  destruct optional; [|intros H; inversion H; subst; auto].
+  destruct (member_parts callee) as [[obj prop]|].
+  - destruct (oc_get_ident c obj s) as [[oid|] s1] eqn:E1.
+    + destruct (oc_get_ident c _ s1) as [[mid|] s2] eqn:E2; intros H; inversion H; subst; intros T;
+        cbn [oc_set_new_ident oc_p]; (eapply oc_get_ident_temp; [exact E2 | eapply oc_get_ident_temp; [exact E1 | exact T]]).
+    + intros H; inversion H; subst. intros T. eapply oc_get_ident_temp; [exact E1 | exact T].
+  - destruct (oc_get_ident c callee s) as [[nid|] s1] eqn:E1.
+    + destruct (oc_assigns s1); intros H; inversion H; subst; intros T; cbn [oc_set_new_ident oc_p];
+        (eapply oc_get_ident_temp; [exact E1 | exact T]).
+    + intros H; inversion H; subst. intros T. eapply oc_get_ident_temp; [exact E1 | exact T].
+Qed.
+
+Lemma oc_member_from_base_temp c base optional s r s' :
+  oc_member_from_base c base optional s = (r, s') -> all_temp (oc_p s) -> all_temp (oc_p s').
+Proof.
+  unfold oc_member_from_base. destruct base as [[k lo hi| | | | | |] cs]; try solve [intros H; inversion H; subst; auto].
+  destruct k; try solve [intros H; inversion H; subst; auto].
+  destruct cs as [|obj [|prop [|? ?]]]; try solve [intros H; inversion H; subst; auto].
+  destruct optional; [|intros H; inversion H; subst; auto].
+  destruct (oc_get_ident c obj s) as [[nid|] s1] eqn:E1; intros H; inversion H; subst; intros T;
+    cbn [oc_set_new_ident oc_p]; (eapply oc_get_ident_temp; [exact E1 | exact T]).
+Qed.
+
+Lemma oc_visit_temp c : forall fuel n s n' s',
+  oc_visit c fuel n s = Some (n', s') -> all_temp (oc_p s) -> all_temp (oc_p s').
+Proof.
+  induction fuel as [|f IH]; intros n s n' s' H T; [discriminate|].
+  cbn [oc_visit] in H.
+  set (spine := fun (n : node) (s : ocstate) =>
+    match n with
+    | Node (K KOptChain lo hi) [opt; Node (K KCall clo chi) [cx; callee; args; targs]] =>
+        match oc_visit c f callee s with
+        | Some (callee', s') =>
+            Some (Node (K KOptChain lo hi) [opt; Node (K KCall clo chi) [cx; callee'; args; targs]], s')
+        | None => None
+        end
+    | Node (K KOptChain lo hi) [opt; Node (K KMember mlo mhi) [obj; prop]] =>
+        match oc_visit c f obj s with
+        | Some (obj', s') =>
+            Some (Node (K KOptChain lo hi) [opt; Node (K KMember mlo mhi) [obj'; prop]], s')
+        | None => None
+        end
+    | Node (K KCall lo hi) [cx; callee; args; targs] =>
+        if is_kind KSuper callee || is_kind KImport callee then Some (n, s)
+        else
+          match oc_visit c f callee s with
+          | Some (callee', s') => Some (Node (K KCall lo hi) [cx; callee'; args; targs], s')
+          | None => None
+          end
+    | Node (K KMember lo hi) [obj; prop] =>
+        match oc_visit c f obj s with
+        | Some (obj', s') => Some (Node (K KMember lo hi) [obj'; prop], s')
+        | None => None
+        end
+    | _ => Some (n, s)
+    end) in *.
+  assert (SP : forall x sx x' sx', spine x sx = Some (x', sx') -> all_temp (oc_p sx) -> all_temp (oc_p sx')).
+  { intros x sx x' sx' E Tx. unfold spine in E.
+    repeat match type of E with
+           | match oc_visit c f ?y ?z with _ => _ end = _ =>
+               let Q := fresh "Q" in destruct (oc_visit c f y z) as [[? ?]|] eqn:Q; [|discriminate];
+               inversion E; subst; eapply IH; [exact Q | exact Tx]
+           | match ?d with _ => _ end = _ => destruct d; try discriminate
+           | (if ?d then _ else _) = _ => destruct d
+           end; try (inversion E; subst; exact Tx). }
+  destruct (optchain_parts n) as [[optional base]|].
+  - destruct (oc_found s).
+    + destruct (if is_kind KCall base then oc_call_from_base c base optional s
+                else oc_member_from_base c base optional s) as [repl s1] eqn:Er.
+      assert (T1 : all_temp (oc_p s1)).
+      { destruct (is_kind KCall base); [eapply oc_call_from_base_temp | eapply oc_member_from_base_temp]; eassumption. }
+      destruct optional; [inversion H; subst; exact T1 | eapply SP; [exact H | exact T1]].
+    + destruct (oc_is_target c n); [eapply IH; [exact H | exact T] | eapply SP; [exact H | exact T]].
+  - eapply SP; [exact H | exact T].
+Qed.
+
+Lemma optchain_transform_temp c fuel e p e' md p' :
+  optchain_transform c fuel e p = Some (e', md, p') -> all_temp p -> all_temp p'.
+Proof.
+  unfold optchain_transform. destruct (oc_visit c fuel e _) as [[e1 s]|] eqn:E; [|discriminate].
+  intros H T. assert (all_temp (oc_p s)) by (eapply oc_visit_temp; [exact E | exact T]).
+  destruct (oc_assigns s); [inversion H; subst; assumption|].
+  destruct (oc_new_ident s); inversion H; subst; assumption.
+Qed.
+
+(** Whatever is visited: the names registered for declaration stay temporaries' names. *)
+Theorem op_visit_temp c : forall fuel root n s n' s',
+  op_visit c fuel root n s = Some (n', s') -> all_temp (o_p s) -> all_temp (o_p s').
+Proof.
+  induction fuel as [|f IH]; intros root n s n' s' H; [discriminate|].
+  assert (D : forall r x s x' s', default_visit_with (op_visit c f r) x s = Some (x', s') ->
+                                  all_temp (o_p s) -> all_temp (o_p s')).
+  { intros r x s0 x' s0'. apply (default_visit_rel (op_visit c f r) (fun a b => all_temp (o_p a) -> all_temp (o_p b))).
+    - auto.
+    - auto.
+    - intros y sy y' sy'. apply IH. }
+  assert (LV : forall r s0, all_temp (o_p s0) -> all_temp (o_p (o_leave r s0))).
+  { intros r s0 T. destruct r; [exact T | exact T]. }
+  cbn [op_visit] in H. destruct (classify n).
+  - inversion H; subst; auto.
+  - inversion H; subst. cbn [o_with_p o_p]. apply register_variable_temp.
+  - destruct (plus_enabled c); [|eapply D; exact H].
+    destruct (default_visit_with (op_visit c f false) n s) as [[n1 s1]|] eqn:E; [|discriminate].
+    inversion H; subst. intros T. apply LV. apply (D _ _ _ _ _ E) in T.
+    unfold bin_step. destruct (is_op bin_op "+" n1); [|exact T].
+    destruct (binary_transform c n1 (o_p s1)) as [[e'|] p2] eqn:B; cbn [snd o_update o_with_p o_p];
+      (eapply binary_transform_temp; [exact B | exact T]).
+  - destruct (plus_enabled c); [|eapply D; exact H].
+    destruct (default_visit_with (op_visit c f false) n s) as [[n1 s1]|] eqn:E; [|discriminate].
+    inversion H; subst. intros T. apply LV. apply (D _ _ _ _ _ E) in T.
+    unfold assign_step. destruct (is_op assign_op "+=" n1); [|exact T].
+    destruct (assign_transform c n1 (o_p s1)) as [[e'|] p2] eqn:B; cbn [snd o_update o_with_p o_p];
+      (eapply assign_transform_temp; [exact B | exact T]).
+  - destruct (tpl_enabled c); [|eapply D; exact H].
+    destruct (tpl_instrumentable n); [|inversion H; subst; auto].
+    destruct (default_visit_with (op_visit c f false) n s) as [[n1 s1]|] eqn:E; [|discriminate].
+    inversion H; subst. intros T. apply LV. apply (D _ _ _ _ _ E) in T.
+    unfold tpl_step. destruct (template_transform c n1 (o_p s1)) as [[e'|] p2] eqn:B; cbn [snd o_update o_with_p o_p];
+      (eapply template_transform_temp; [exact B | exact T]).
+  - destruct (default_visit_with (op_visit c f false) n s) as [[n1 s1]|] eqn:E; [|discriminate].
+    inversion H; subst. intros T. apply LV. apply (D _ _ _ _ _ E) in T.
+    unfold call_step. destruct (callee_is_expr n1); [|exact T].
+    destruct (call_transform c n1 (o_p s1)) as [[[e' tag]|] p2] eqn:B; cbn [snd o_update o_with_p o_p];
+      (eapply call_transform_temp; [exact B | exact T]).
+  - destruct (optchain_transform c f n (o_p s)) as [[[n1 md] p1]|] eqn:E; [|discriminate].
+    destruct (struct_level_with c (op_visit c f false) n1 (o_with_p p1 s)) as [[n2 s3]|] eqn:E2; [|discriminate].
+    inversion H; subst. intros T. apply LV.
+    assert (T1 : all_temp (o_p (o_with_p p1 s))) by (cbn [o_with_p o_p]; eapply optchain_transform_temp; [exact E | exact T]).
+    unfold struct_level_with in E2. destruct (classify n1);
+      try (inversion E2; subst; first [exact T1 | cbn [o_with_p o_p]; apply register_variable_temp; exact T1]);
+      (eapply D; [exact E2 | exact T1]).
+  - destruct (is_op unary_op "delete" n); [inversion H; subst; auto | eapply D; exact H].
+  - inversion H; subst; auto.
+  - inversion H; subst; auto.
+  - eapply D; exact H.
+Qed.
